@@ -250,15 +250,17 @@ def sortOk (lt : β → β → Bool) (key : α → β) (input result : List α) 
 def unionOk (eqv : α → α → Bool) (xs ys result : List α) : Bool :=
   result.all (fun r => decide (r ∈ xs ++ ys)) && (xs ++ ys).all (fun z => result.any (fun r => eqv r z))
 
-/-- `intersection` as a set -/
+/-- `intersection` as a set: only elements of the first list that match something in the second;
+    every such element is in the result or represented there by an element matching it
+    (duplicates under the test may or may not be repeated) -/
 def intersectionOk (eqv : α → α → Bool) (xs ys result : List α) : Bool :=
   result.all (fun r => decide (r ∈ xs) && ys.any (fun y => eqv r y)) &&
-    xs.all (fun x => !ys.any (fun y => eqv x y) || decide (x ∈ result))
+    xs.all (fun x => !ys.any (fun y => eqv x y) || result.any (fun r => decide (r = x) || eqv r x))
 
 /-- `set-difference` as a set -/
 def setDifferenceOk (eqv : α → α → Bool) (xs ys result : List α) : Bool :=
   result.all (fun r => decide (r ∈ xs) && !ys.any (fun y => eqv r y)) &&
-    xs.all (fun x => ys.any (fun y => eqv x y) || decide (x ∈ result))
+    xs.all (fun x => ys.any (fun y => eqv x y) || result.any (fun r => decide (r = x) || eqv r x))
 
 end Check
 
@@ -320,7 +322,7 @@ inductive Fn where
   | car | cdr | charCode | succ | neg | mod2 | upcase          -- unary, value
   | evenp | oddp | plusp | null | consp                        -- unary, boolean
   | eqTo (o : Obj) | ltThan (n : Int)                          -- (lambda (x) (equal x 'o)), (lambda (x) (< x n))
-  | eql | equal | lt | le | gt | ge | numEq | charEq | charLt  -- binary, boolean
+  | eq | eql | equal | lt | le | gt | ge | numEq | charEq | charLt  -- binary, boolean
   | sameParity                                                 -- (lambda (a b) (= (mod a 2) (mod b 2)))
   | add | sub | cons | list | max                              -- n-ary, value
   deriving DecidableEq, Repr
@@ -347,6 +349,7 @@ def Fn.call : Fn → List Obj → Option Obj
   | .consp, [x] => some (ofBool (!atomic x))
   | .eqTo o, [x] => some (ofBool (x = o))
   | .ltThan n, [.int i] => some (ofBool (i < n))
+  | .eq, [a, b] => if atomic a && atomic b then some (ofBool (a = b)) else none
   | .eql, [a, b] => if atomic a && atomic b then some (ofBool (a = b)) else none
   | .equal, [a, b] => some (ofBool (a = b))
   | .lt, [.int a, .int b] => some (ofBool (a < b))
@@ -532,9 +535,11 @@ def rassoc (p : Obj → Bool) (alist : List Obj) : Option Obj :=
 def every (f : List Obj → Obj) (seqs : List (List Obj)) : Obj :=
   ofBool ((tuples seqs).all (fun tup => truthy (f tup)))
 
-/-- `some`: the first non-nil value of the predicate -/
+/-- `some`. slip documents the result as a boolean ("returns true if the predicate … returns true at
+    least once", Return: boolean) where the language returns the predicate's value; the model
+    follows slip's documentation. -/
 def some' (f : List Obj → Obj) (seqs : List (List Obj)) : Obj :=
-  optObj (((tuples seqs).map f).find? truthy)
+  ofBool ((tuples seqs).any (fun tup => truthy (f tup)))
 
 /-- `notany` -/
 def notany (f : List Obj → Obj) (seqs : List (List Obj)) : Obj :=
